@@ -661,7 +661,7 @@ func (x *Exec) havocModifies(env *CEnv, st *State, pre *State, me *CE) {
 	v := env.eval(me)
 	env.st = save
 	switch {
-	case v.K == KSlice:
+	case v.K == KSlice && (me.Kind != "field" || star):
 		// contents of the slice's range may change
 		for _, lf := range m.flatten(v.Loc.T) {
 			name := v.Loc.Prefix + lf.Suffix
